@@ -713,13 +713,30 @@ def run_impl(case):
                                                           structure(run, t.default_value()[1])
                                                           if t.default_value()[0] in (0, 3, 4, 5, 6, 9) else "-",
                                                           nm in o._instance_traits())
+                # probe assignments: handlers registered through the acting instance must not hear about others
+                run.probe_objs = {}
+                for idx, (o, ci) in enumerate(run.objs):
+                    if idx == actor:
+                        continue
+                    for nm in run.names[ci]:
+                        try:
+                            setattr(o, nm, run.A[4])
+                        except Exception:
+                            pass
                 for ci, cls in enumerate(run.classes):
                     o = cls()
+                    run.probe_objs[id(o)] = ("fresh", ci)
+                    run.keep.append(o)
                     for nm in run.names[ci]:
                         try:
                             run.fresh[(ci, nm)] = structure(run, getattr(o, nm))
                         except Exception as e:
                             run.fresh[(ci, nm)] = "raises " + exc_name(e)
+                    for nm in run.names[ci]:
+                        try:
+                            setattr(o, nm, run.A[4])
+                        except Exception:
+                            pass
                         t = cls.class_traits()[nm]
                         ns = t._notifiers(False)
                         run.fresh[(ci, nm, "trait")] = (t.default_kind, int(t.comparison_mode),
@@ -727,9 +744,9 @@ def run_impl(case):
                 run.calls = {}
                 idx = {id(o): i for i, (o, _) in enumerate(run.objs)}
                 for ob, h, old, new in run.log:
-                    i = idx.get(id(ob))
+                    i = idx.get(id(ob), run.probe_objs.get(id(ob)))
                     if i is not None and i != actor:
-                        run.calls.setdefault(i, []).append((h, structure(run, old), structure(run, new)))
+                        run.calls.setdefault(i, []).append(h)      # which handlers heard about this object
         for key in real.final:
             if real.final[key] != twin.final.get(key):
                 i, nm = key[0], key[1]
@@ -761,7 +778,7 @@ def run_impl(case):
     sigs = set()
     for h in uniq:
         s = h["signature"]
-        if s.startswith("interference:") and s.split(":", 2)[2].startswith("subclass-overridden-") \
+        if s.startswith("interference:") and s.count(":") >= 2 and s.split(":", 2)[2].startswith("subclass-overridden-") \
                 and s.split(":", 2)[2].endswith("-of-Any"):
             h = dict(h)
             h["signature"] = s = "shared-default:" + s.split(":", 2)[2]
